@@ -11,6 +11,8 @@
 (*   Issue  c t                 the application calls the client            *)
 (*   Batch  s k p d r           a server received a request (type lists)    *)
 (*   Respond / Fail  s k        the server answers / fails that request     *)
+(*   Break  s k n               the server ends the attempt with a retriable *)
+(*                              error after streaming n responses            *)
 (*   Done   c res               a value arrived on the result channel       *)
 (*   SEmit  c s key / SEnd c s how   a server sends a record / ends         *)
 (*   Out    c key               an item arrived on a list / scan channel    *)
@@ -26,7 +28,7 @@ VARIABLES l,       \* next line
           seen,    \* the server has reported the in-flight request of (s, k)
           nobs,    \* per call: completions observed on the real client
           nout     \* per call: items observed on the real result channel
-tvars == <<cfg, calls, q, cur, fly, ans, agg, done, res, sst, emitted, wire, chn, gcl, fin, mrg, out, l, seen, nobs, nout>>
+tvars == <<cfg, calls, q, cur, fly, ans, agg, done, res, sent, part, sst, emitted, wire, chn, gcl, fin, mrg, out, l, seen, nobs, nout>>
 
 CfgOf(e) == [n |-> e.cfg.n, maxReq |-> e.cfg.maxReq, maxBytes |-> e.cfg.maxBytes,
              linger |-> e.cfg.linger, dead |-> Range(e.cfg.dead)]
@@ -54,6 +56,8 @@ Line(e) ==
     \/ /\ e.a = "Respond" /\ seen[e.s][e.k] /\ Respond(e.s, e.k)
        /\ seen' = [seen EXCEPT ![e.s][e.k] = FALSE] /\ UNCHANGED <<nobs, nout>>
     \/ /\ e.a = "Fail" /\ seen[e.s][e.k] /\ Fail(e.s, e.k)
+       /\ seen' = [seen EXCEPT ![e.s][e.k] = FALSE] /\ UNCHANGED <<nobs, nout>>
+    \/ /\ e.a = "Break" /\ seen[e.s][e.k] /\ Break(e.s, e.k, e.n)
        /\ seen' = [seen EXCEPT ![e.s][e.k] = FALSE] /\ UNCHANGED <<nobs, nout>>
     \/ /\ e.a = "Done" /\ e.c \in CallIds /\ ~IsStream(calls[e.c])
        /\ done[e.c] >= 1 /\ nobs[e.c] = 0 /\ res[e.c] = e.res
